@@ -453,6 +453,29 @@ def r07_5(ctx):
                 cv = iv.at_call(bi, t_["args"][1])
                 if cv and len(cv) == 1 and cv[0][0] == cv[0][1]:
                     subs.append((t_.get("line"), iv.at_call(bi, t_["args"][0]), cv[0][0], b.local_ty(t_["args"][0]["p"]["l"]) if is_place(t_["args"][0]) else ""))
+        # the same 10-bit offsets taken with a mask: `unit & 0x3FF` is `unit - base` exactly when the unit is known to
+        # lie in the 0x400-aligned block of a lead (D800..DBFF) or a trail (DC00..DFFF) surrogate
+        for bi in sorted(b.reach()):
+            for si, s in enumerate(b.blocks[bi]["stmts"]):
+                if s["k"] != "assign" or s["rv"]["k"] != "binop" or s["rv"]["op"] != "BitAnd" or s.get("line") not in feeding0:
+                    continue
+                st = iv.state_after(bi, si - 1) if si > 0 else dict(iv.entry.get(bi, {}))
+                mv = iv.val(st, s["rv"]["b"]) if st is not None else None
+                if not (mv and mv == ((0x3FF, 0x3FF),)) or not is_place(s["rv"]["a"]) or b.local_ty(s["rv"]["a"]["p"]["l"]) != "u16":
+                    continue
+                v = iv.val(st, s["rv"]["a"])
+                n += 1
+                if v and ival.subset(v, [(0xD800, 0xDBFF)]):
+                    which = "lead"
+                elif v and ival.subset(v, [(0xDC00, 0xDFFF)]):
+                    which = "trail"
+                else:
+                    which = None
+                shown = "unknown" if not v else " ∪ ".join(f"[{lo:#x}, {hi:#x}]" for lo, hi in v)
+                if which:
+                    halves.add(which)
+                ctx.ob(f"pair-half:{which or 'masked'}", which is not None, site(b, line=s["line"]),
+                       f"{which} unit ∈ {shown}: `& 0x3FF` is its offset from the block's base" if which else f"`& 0x3FF` is applied to a unit ∈ {shown}, not confined to the lead (D800..DBFF) or the trail (DC00..DFFF) block: an ill-formed pair would decode to a fabricated character")
         for line, v, base, aty in subs:
             if line not in feeding0 or aty not in ("u16", "u32"):
                 continue
